@@ -128,8 +128,12 @@ def drive(ctx, ffi, lib, structs, n_extra, records, metas):
                 except Exception as e:
                     out = "other:" + type(e).__name__
                 b1 = bytes(buf)
+                try:
+                    rbv = int(getattr(p, f))
+                except Exception as e:       # a read-back that raises is an outcome of its own
+                    rbv, out = 0, "other:readback-" + type(e).__name__
                 rec = dict(base, op="bf", id=len(records), v=bv(v), out=out, before=list(b0), after=list(b1),
-                           rb=bv(int(getattr(p, f))), hascrb=True, crb=bv(int(cget(p))))
+                           rb=bv(rbv), hascrb=True, crb=bv(int(cget(p))))
                 records.append(rec)
                 metas.append({"struct": render(name, fields), "field": f, "type": t, "bs": bs, "v": v, "out": out,
                               "op": "write"})
